@@ -264,7 +264,10 @@ class SymbolicExpression(Generic[T], ABC):
         required_vars = self._parent_._required_variables_from_child_(self, when_true=not self._is_false_)
         if not required_vars:
             return False
-        required_output = {k: v for k, v in output.items() if k in required_vars}
+        # a flattened expression has several values for one binding of its variables: outputs that differ in such a
+        # value are different outputs, whether or not an ancestor mentions the flattened expression itself
+        required_output = {k: v for k, v in output.items()
+                           if k in required_vars or isinstance(self._id_expression_map_.get(k), Flatten)}
         if not required_output:
             return False
         # Use a per-parent seen set to avoid suppressing outputs across different parent contexts
